@@ -338,7 +338,7 @@ struct World {
     peer_chain: BTreeMap<u64, usize>,
 }
 
-fn legal_plan(rng: &mut Rng, chain: &SimChain) -> Vec<(u64, u32)> {
+pub(crate) fn legal_plan(rng: &mut Rng, chain: &SimChain) -> Vec<(u64, u32)> {
     // epoch lengths and compact targets with neighbouring epoch difficulties within factor 2
     let genesis_ct = chain.block(0).compact_target();
     let mut plan = vec![(rng.range(8, 25), genesis_ct)];
